@@ -41,15 +41,20 @@
         position; tombstones included) the per-page cache is the database
         file's and every position it takes carries the from-scratch checksum
         of its database file (C04_replica_history).
+     9. (round 8) across a restart, from ANY state: if Open succeeds, the
+        position's checksum is the from-scratch checksum of the database file
+        and the cache is the file's (C04_open_recomputes).
    NOT proved (C04_history_partial): the same composition through a
    checkpoint run by SQLite (page writes to the database file in WAL mode and
-   the restart of the log), the way back out of WAL mode, Open, and a node
-   that changes role between the histories above; it is re-checked on
+   the restart of the log), the way back out of WAL mode, and a node that
+   changes role or restarts between the histories above (Open re-establishes
+   the per-page agreement, but the journal mode afterwards depends on the
+   newest file's page 1, which the invariants above do not track); it is re-checked on
    every run by the correspondence (the model re-executes every generated
    history and must reproduce every reported position) and by the harness'
    raw-file recomputation. *)
 From Coq Require Import NArith List Bool.
-Require Import LF.Gen.ConstsGen LF.Model.PageDB LF.Proofs.XorLib LF.Proofs.ChecksumProofs LF.Proofs.CaptureProofs LF.Proofs.HistoryProofs LF.Proofs.WalHistoryProofs LF.Proofs.WalCheckpointProofs LF.Proofs.ApplyHistoryProofs.
+Require Import LF.Gen.ConstsGen LF.Model.PageDB LF.Proofs.XorLib LF.Proofs.ChecksumProofs LF.Proofs.CaptureProofs LF.Proofs.HistoryProofs LF.Proofs.WalHistoryProofs LF.Proofs.WalCheckpointProofs LF.Proofs.ApplyHistoryProofs LF.Proofs.OpenProofs.
 Import ListNotations.
 Local Open Scope N_scope.
 
@@ -232,3 +237,35 @@ Example C04_replica_history_nonvacuous :
     | None => False
     end.
 Proof. exact replica_history_example. Qed.
+
+(* Restart.  Open (db.go:481) reads the header, checkpoints whatever log it finds, recomputes every page checksum from the
+   database file ([open_recomputed]) and re-applies the newest transaction file [f], verifying the checksum it names.
+   From ANY state [s] - nothing is assumed about its caches - if Open succeeds then: the cache is the file's on every page
+   and empty beyond the database ([RB]), the position is [f]'s, and its checksum is the from-scratch checksum of the database
+   file.  Asked of [f]: page numbers from 1, no page twice, and a page it adds beyond the size the header names is among
+   its pages (C02_growth_is_captured for the files a primary writes). *)
+Theorem C04_open_recomputes : forall s f rest s',
+  1 <= lockpg s -> rev (ltxdir s) = f :: rest -> wf_ltx f ->
+  (forall x, pageN (open_recomputed s) < x <= l_commit f -> x <> lockpg s -> alookup x (l_pages f) <> None) ->
+  op_open s = (Done, s') ->
+  RB s' /\ lockpg s' = lockpg s /\ txid s' = l_max f /\ pageN s' = l_commit f /\ chk s' = l_post f /\
+  chk s' = scratch (fun p => if p =? lockpg s' then 0 else file_h s' p) (pageN s').
+Proof. exact open_checksum. Qed.
+Print Assumptions C04_open_recomputes.
+
+(* Non-vacuity: a restart right after a shrinking commit, before SQLite's truncate - the file still has 5 pages, the
+   database 3 *)
+Example C04_open_recomputes_nonvacuous :
+  let pg h n := mkPg (fl h) n false in
+  let hs := [HTx [] [AWrite 1 (pg 11 2); AWrite 2 (pg 12 0)] 2;
+             HTx [(3, pg 33 0); (4, pg 44 0)] [AWrite 1 (pg 21 5); AWrite 5 (pg 55 0)] 5;
+             HTx [] [AWrite 2 (pg 92 0); AWrite 1 (pg 31 3)] 3] in
+  exists s f rest, run_hsteps (init 2097153) hs = Some s /\
+    1 <= lockpg s /\ rev (ltxdir s) = f :: rest /\ wf_ltx f /\
+    (forall x, pageN (open_recomputed s) < x <= l_commit f -> x <> lockpg s -> alookup x (l_pages f) <> None) /\
+    match op_open s with
+    | (Done, s') => (lenN (dbfile s), txid s', pageN s', chk s' =? chk s, lenN (dbfile s'), chk s' =? fl (N.lxor (N.lxor 31 92) 33))
+                    = (5, 3, 3, true, 3, true)
+    | _ => False
+    end.
+Proof. exact open_checksum_example. Qed.
